@@ -1,6 +1,6 @@
 (* C12 - Printing and parsing are inverse and printing is unambiguous. *)
 From Coq Require Import List Bool String Ascii QArith.
-From Y0 Require Import Base.ListSet Dsl.Syntax Dsl.Tok Dsl.Build Dsl.Print Dsl.Parse Proofs.DslP Proofs.RoundTripBounded Dsl.Sem Proofs.TokenizeP Proofs.ParseP Proofs.EvalP Proofs.EvalSemP.
+From Y0 Require Import Base.ListSet Dsl.Syntax Dsl.Tok Dsl.Build Dsl.Print Dsl.Parse Proofs.DslP Proofs.RoundTripBounded Dsl.Sem Proofs.TokenizeP Proofs.ParseP Proofs.EvalP Proofs.EvalSemP Proofs.BuiltP.
 Import ListNotations.
 Close Scope Q_scope.
 Open Scope string_scope.
@@ -44,6 +44,19 @@ Theorem C12_parsed_text_means_what_the_object_means e :
   wf_sem e = true ->
   parse_y0 (to_y0 e) = reparse e /\ forall m r, (eval m (parse_y0 (to_y0 e)) r == eval m e r)%Q.
 Proof. exact (parse_meaning e). Qed.
+
+(* ... and the public operators keep expressions well formed: whatever is obtained from well-formed terms by *, / and Sum[...] (any
+   number of times, in any nesting) without an operator raising is well formed, so the meaning clause holds of every expression so built.
+   [built] starts from arbitrary well-formed expressions; the plain builder P(X1, .., Xn) / PP[pop](..) is shown to give one. *)
+Theorem C12_operator_built_expressions_parse_to_the_same_meaning e :
+  built e -> is_err e = false ->
+  parse_y0 (to_y0 e) = reparse e /\ forall m r, (eval m (parse_y0 (to_y0 e)) r == eval m e r)%Q.
+Proof. exact (built_parse_meaning e). Qed.
+
+Theorem C12_joint_builder_gives_wellformed_terms pop pre :
+  match pop with Some p => wfvar p = true | None => True end -> forallb wfvar pre = true -> pre <> [] ->
+  wf_sem (prob_safe pop pre None [] None) = true.
+Proof. exact (wf_prob_joint pop pre). Qed.
 
 (* not vacuous: ((P(A) / P(B)) / (P(C) / P(A))) * Sum[B](P(A | B)) - a fraction of fractions as a factor of a product *)
 Example C12_meaning_not_vacuous :
@@ -96,6 +109,8 @@ Proof. exact round_trip_bounded. Qed.
 Print Assumptions C12_tokenizer_reads_back_the_printed_tokens.
 Print Assumptions C12_printed_text_parses_to_the_intended_tree.
 Print Assumptions C12_parsed_text_means_what_the_object_means.
+Print Assumptions C12_operator_built_expressions_parse_to_the_same_meaning.
+Print Assumptions C12_joint_builder_gives_wellformed_terms.
 Print Assumptions C12_round_trip.
 Print Assumptions C12_normal_form_covers_the_family.
 Print Assumptions C12_product_denominator_is_bracketed.
